@@ -1,6 +1,6 @@
 CONSTANTS
   ProgOf <- FamProgOf
-  MaxSteps = 3000
+  MaxSteps = 8000
   EmitOn = TRUE
   ReservedNames = {"clock","len","push","remove","delkey","keys","values","abs","sqrt","pow","sin","cos","tan","min","max","round","input","input_ascii"}
 INIT Init
